@@ -544,7 +544,7 @@ class CGen(qf.QGen):
         kw.setdefault("max_depth", 2)
         kw.setdefault("hostile", 0.1)
         super().__init__(rng, **kw)
-        self.p_corr = 0.5
+        self.c10_corr = 0.5      # (QGen's own p_corr stays 0: correlation is placed by correlate() below)
         self.p_bad_corr = 0.25     # share of correlated references placed outside WHERE (known defect)
         self.p_pretag = 0.08
         self.p_rejoin = 0.07
@@ -589,20 +589,40 @@ class CGen(qf.QGen):
             return
         for _, it in clause_items(q):
             for sub in item_parts(it)[1]:
-                if sub["k"] != "sel" or not sub.get("from") or self.r.random() > self.p_corr:
+                if sub["k"] != "sel" or not sub.get("from") or self.r.random() > self.c10_corr:
                     continue
                 t = self.r.choice(outer)
                 oref = ["field", self.r.choice(qf.COLS), [t[0], list(t[1]), t[2]], None]
                 iref = ["field", self.r.choice(qf.COLS), ["#0", [], None], None]
                 crit = ["basic", self.r.choice(["eq", "gt", "lte"]), iref, oref, None]
                 if self.r.random() >= self.p_bad_corr:
+                    # _validate_table looks at the fields of the WHOLE criterion item: any shape of WHERE will do
                     w = sub.get("where")
+                    ct = ["t", crit]
+                    rr = self.r.random()
+                    if rr < 0.15:
+                        ct = ["not", ct]
+                    elif rr < 0.3:
+                        ct = ["cplx", "or", ["t", crit], ["t", ["basic", "gt", iref, ["vali", 0, None], None]]]
+                    elif rr < 0.4 and not hasattr(self, "_in_corr"):
+                        self._in_corr = True
+                        try:
+                            ct = ["in", oref, self.select(self.cls(sub["cls"]), 3, small=True, nsel=1), self.r.random() < 0.3]
+                        finally:
+                            del self._in_corr
+                    elif rr < 0.5 and not hasattr(self, "_in_corr"):
+                        self._in_corr = True
+                        try:
+                            ct = ["cmp", self.r.choice(["eq", "gt"]), oref, self.select(self.cls(sub["cls"]), 3, small=True, nsel=1)]
+                        finally:
+                            del self._in_corr
                     if w is None:
-                        sub["where"] = ["t", crit]
-                    elif w[0] == "t":
+                        sub["where"] = ct
+                    elif w[0] == "t" and ct[0] == "t" and self.r.random() < 0.5:
                         sub["where"] = ["t", ["cplx", "and", w[1], crit, None]]
                     else:
-                        continue
+                        op = self.r.choice(["and", "and", "or"])
+                        sub["where"] = ["cplx", op, w, ct] if self.r.random() < 0.6 else ["cplx", op, ct, w]
                 else:
                     pos = self.r.choice(["select", "having", "groupby", "orderby"])
                     if pos == "select" and sub["selects"] and sub["selects"][0][0] == "t" and sub["selects"][0][1][0] != "star":
@@ -963,6 +983,15 @@ def _corpus_builtin():
     inner = sel("SQLLiteQuery", [["t", U]], [["t", _f("a", s0)]], where=["t", ["basic", "eq", _f("b", s0), _f("b", T), None]])
     out.append({"kind": "exec", "q": sel("SQLLiteQuery", [["t", T]], [["t", _f("id", s0)]], where=["in", _f("a", s0), inner, False])})
     out.append({"kind": "stmt", "q": sentinelise(copy.deepcopy(out[-1]["q"]))})
+    # ... also when the WHERE is a composite item (AND of a plain criterion and an IN sub-query; NOT; outer field IN sub-query)
+    deep = sel("Query", [["t", V]], [["t", _f("c", s0)]])
+    inner = sel("Query", [["t", U]], [["t", _f("a", s0)]],
+                where=["cplx", "and", ["t", ["basic", "eq", _f("b", s0), _f("b", T), None]], ["in", _f("c", s0), deep, False]])
+    out.append({"kind": "stmt", "q": sentinelise(sel("Query", [["t", T]], [["t", _f("id", s0)]], where=["in", _f("a", s0), inner, False]))})
+    deep = sel("Query", [["t", V]], [["t", _f("c", s0)]])
+    inner = sel("Query", [["t", U]], [["t", _f("a", s0)]],
+                where=["cplx", "or", ["not", ["t", ["basic", "gt", _f("b", s0), ["vali", 1, None], None]]], ["in", _f("c", T), deep, True]])
+    out.append({"kind": "stmt", "q": sentinelise(sel("Query", [["t", T]], [["t", _f("id", s0)]], where=["exists", inner, False]))})
     # F2: a sub-query already named sq0 by another statement, reused as second FROM item
     fresh = sel("SQLLiteQuery", [["t", V]], [["t", _f("a", s0)]])
     tagged = sel("SQLLiteQuery", [["t", U]], [["t", _f("a", s0)]], pretag=0)
@@ -1548,6 +1577,10 @@ def histogram(cases):
         for k, st in info.items():
             if st["correlated"]:
                 inc("correlated-statements")
+        for s, pos, _ in stmts:
+            sid_ = [n_ for n_, (x_, _, _) in enumerate(stmts) if x_ is s][0]
+            if info[sid_]["corr_where"] and s.get("where") is not None:
+                inc("correlated-where-item:" + s["where"][0])
     return h
 
 
